@@ -189,7 +189,7 @@ impl Engine for CmpEngine {
                 ["cmp", "wf", m] => match parse_module(m) {
                     None => "bad-op".to_string(),
                     Some(m) => match compile(m, None) {
-                        Ok(p) => format!("wf:ok n={}", p.disassemble_string().lines().count()),
+                        Ok(p) => format!("wf:ok n={} cap=true", p.disassemble_string().lines().count()),
                         Err(_) => "wf:n/a".into(),
                     },
                 },
@@ -198,7 +198,7 @@ impl Engine for CmpEngine {
                     let bc = a.iter().find_map(|x| x.strip_prefix("bc=")).unwrap_or("");
                     let bytes: Vec<u8> = (0..bc.len() / 2).map(|i| u8::from_str_radix(&bc[2 * i..2 * i + 2], 16).unwrap()).collect();
                     let p = CaoCompiledProgram { bytecode: bytes, ..Default::default() };
-                    format!("wf:ok n={}", p.disassemble_string().lines().count())
+                    format!("wf:ok n={} cap=true", p.disassemble_string().lines().count())
                 }
                 _ => "bad-op".into(),
             };
